@@ -63,6 +63,16 @@ def cases(tier, rng, dist):
         if not swappable(m): continue
         yield {"m": m, "k": rng.randint(0, 4), "dtype": rng.choice(["int64", "uint8", "bool", "float64", "int8"]), "order": rng.choice("CF"),
                "mode": "random", "aseed": rng.randint(0, 10**9)}
+    # many swaps on larger matrices (the model follows every one of them on the logged answers)
+    for R, C, k in ((12, 12, 300), (40, 5, 150), (4, 70, 200)) if tier == "quick" else ((12, 12, 300), (40, 5, 150), (4, 70, 200), (20, 20, 1000), (64, 3, 257)):
+        m = [[rng.randint(0, 1) for _ in range(C)] for _ in range(R)]
+        if swappable(m):
+            yield {"m": m, "k": k, "dtype": rng.choice(["int64", "uint8", "bool"]), "order": rng.choice("CF"), "mode": "random", "aseed": rng.randint(0, 10**9)}
+    # wide matrices whose numbers of discordant columns are 255, 256, 257, 512 (beyond the range of 8-bit counters)
+    for a, b, c2 in ((256, 3, 2), (255, 4, 1), (257, 1, 0), (512, 2, 3), (256, 256, 5)):
+        m = [[1] * a + [0] * b + [1] * c2, [0] * a + [1] * b + [1] * c2]
+        for k in (0, 1, 2):
+            yield {"m": m, "k": k, "dtype": ["int64", "uint8", "bool"][k], "order": "C", "mode": "random", "aseed": rng.randint(0, 10**9)}
     for bad in ([[0, 1, 0.5], [1, 0, 0]], [[1, 2], [3, 4]], [[0, 0], [0, 0]], [[1, 1], [1, 1]], [[0, 1, -1], [1, 0, 1]], [[0, 1, 2], [1, 0, 0]], [[0.25, 1], [1, 0]]):
         yield {"m": bad, "k": 1, "bad": "values"}
     for nd in ([0, 1, 1, 0], [[[0, 1], [1, 0]]]):
